@@ -74,6 +74,12 @@ def main(tier: str) -> int:
         odd = [s for s, e in v["effect_alone"].items() if e is not True]
         run.violation(f"sibling-argument-ignored|{v['class']}|{v['family']}|{v['group']}_{'+'.join(odd)}", {"kind": "sibling-argument-ignored", **v})
         run.klass("siblings", v["class"], v["family"], v["group"])
+    # arguments whose values are an enumeration of the standard: each documented value is kept as given
+    for v in rl.enumerated_argument_values():
+        run.violation(f"enumerated-argument-not-kept|{v['class']}|{v['arg']}", {"kind": "enumerated-argument-not-kept", **v})
+    for e in rl.ENUM_ARGS:
+        run.klass("enumerated", e[0], e[2])
+        run.count(len(e[4]))
     per = 12 if tier == "quick" else 300
     names = sorted(rl.classes())
     import multiprocessing as mp
